@@ -169,6 +169,7 @@ def run(ctx):
     ctx.floor('C13', len(proto), PROTOCOL_FLOOR, 'functions in the undo protocol')
     for f, creates in proto:
         check_function(ctx, f, creates)
+    position_rule(ctx, 'C13-POS')
     # ---------------------------------------------------------------- ORDER
     n = 0
     for f in repo.rule_funcs():
@@ -208,13 +209,62 @@ def call_may_raise(ctx, fn, call):
     return kind in ('exact', 'dispatch', 'super') and any(fn_may_raise(ctx, t) for t in ts)
 
 
-def check_function(ctx, f, creates, only_cover_locs=None, prefix='C13'):
+def position_rule(ctx, prefix):
+    """an object's place in the save queue (`_save_pos_`, or a local that was given it) is None or an index, and 0 is an index: every test on it is a
+    comparison (`is None`, `is not None`, `== n`); a truthiness test treats the first queued object as not queued -- the undo of a refused
+    delete then fails to put it back and its INSERT / UPDATE is silently dropped at commit"""
+    nt = 0
+    for f in ctx.repo.rule_funcs():
+        if f.mod.name != 'pony.orm.core': continue
+        src_names = {t.id for st in ast.walk(f.node) if isinstance(st, ast.Assign) and isinstance(st.value, ast.Attribute) and st.value.attr == '_save_pos_'
+                     for t in st.targets if isinstance(t, ast.Name)}
+        outer = f.parent
+        while outer is not None:            # closures see the locals of the enclosing function
+            src_names |= {t.id for st in walk_no_nested(outer.node) if isinstance(st, ast.Assign) and isinstance(st.value, ast.Attribute) and st.value.attr == '_save_pos_'
+                          for t in st.targets if isinstance(t, ast.Name)}
+            outer = outer.parent
+        def is_pos(e): return isinstance(e, ast.Attribute) and e.attr == '_save_pos_' or isinstance(e, ast.Name) and e.id in src_names
+        def truth_operands(e):
+            if isinstance(e, ast.BoolOp):
+                for v in e.values: yield from truth_operands(v)
+            elif isinstance(e, ast.UnaryOp) and isinstance(e.op, ast.Not): yield from truth_operands(e.operand)
+            else: yield e
+        for n in walk_no_nested(f.node):
+            tests = [n.test] if isinstance(n, (ast.If, ast.While, ast.Assert)) else []
+            tests += [x.test for x in ast.walk(n) if isinstance(x, ast.IfExp)] if isinstance(n, ast.stmt) and not isinstance(n, (ast.FunctionDef, ast.If, ast.While, ast.For, ast.With, ast.Try)) else []
+            for t in tests:
+                ops = list(truth_operands(t))
+                if not any(is_pos(x) for o in ops for x in ast.walk(o)): continue
+                nt += 1
+                bad = [o for o in ops if is_pos(o)]
+                ctx.ob(prefix + '.queue-position-is-compared-never-tested-for-truth', f, t, not bad,
+                       '' if not bad else '`%s` tests a save-queue position for truth: position 0 (the first object created or modified since the last flush) counts as "not queued"; '
+                       'after a refused delete that object is not put back into the queue and its pending INSERT / UPDATE is never written' % norm(t)[:70], node=n)
+    ctx.floor(prefix, nt, 5, 'tests on a save-queue position')
+
+
+def check_function(ctx, f, creates, only_cover_locs=None, prefix='C13', reg_for=None):
     repo, cg = ctx.repo, ctx.cg
     g = cg.cfg(f)
     closures = [c for c in f.nested.values() if c.name.startswith('undo')]
     has_param = 'undo_funcs' in f.params
     if only_cover_locs is not None:
         return cover_rule(ctx, f, g, closures, has_param, only_cover_locs, prefix)
+    if reg_for is not None:
+        # only the registration clause (REG.closure-registered-before-failure-points), for functions whose closures restore the given location
+        # class (C11: the index maps): the same analysis as below, every other obligation filtered out
+        if not any(isinstance(x, ast.Subscript) and 'index' in norm(x.value) for c in closures for x in ast.walk(c.node)): return
+        class _Only(object):
+            def __init__(self, inner): self._i = inner
+            def __getattr__(self, name): return getattr(self._i, name)
+            def ob(self, rule, *a, **k):
+                if rule.endswith('-REG.closure-registered-before-failure-points'): return self._i.ob(rule, *a, **k)
+                class _K(object): key = ''
+                return _K()
+            def floor(self, *a, **k): pass
+            def count(self, *a, **k): pass
+            def exception(self, *a, **k): pass
+        return check_function(_Only(ctx), f, creates, prefix=prefix)
     # ------------------------------------------------------------ NONE
     for s in walk_no_nested(f.node):
         if isinstance(s, ast.Assign) and any(dotted(t) == 'undo_funcs' for t in s.targets):
